@@ -52,3 +52,17 @@ pub fn from_utf8_any(v: &[u8]) -> Result<&str, core::str::Utf8Error> {
         match core::str::from_utf8(&BAD) { Err(e) => Err(e), Ok(_) => unreachable!() }
     }
 }
+
+// ---- over-approximation of `Decoder::skip`'s contract for the no-panic / position harnesses (C02): either an
+// error, or success with the cursor moved forward to an arbitrary position inside the input.  Every behaviour the
+// real function can have on any item is included, so "no panic, position <= len" proved against this stub holds
+// for the real one (given C06's contract).
+pub fn skip_any<'b>(d: &mut crate::decode::Decoder<'b>) -> Result<(), crate::decode::Error> where 'b: 'b {
+    let len = d.input().len();
+    let p = d.position();
+    if p >= len || kani::any() { return Err(crate::decode::Error::end_of_input()) }
+    let q: usize = kani::any();
+    kani::assume(p < q && q <= len);
+    d.set_position(q);
+    Ok(())
+}
